@@ -1398,9 +1398,101 @@ pub fn o_myc(plan: &Plan, out: &Outcome, vs: &mut Vec<Violation>) {
     }
 }
 
+/// A callback that bails out (returns its own error, or panics) while it still holds a writer:
+/// the writers' destructors finish the response, so everything the shim had reported up to
+/// that point must have been written to the transport (it need not have been flushed: run_on
+/// is on its way out) -- the same reply as if the shim had dropped the writer there.
+pub fn o_early_exit(plan: &Plan, out: &Outcome, vs: &mut Vec<Violation>) {
+    let w = &out.w;
+    if w.fault_fired.is_some() || out.model.hostile || w.tls.is_some() {
+        return;
+    }
+    for (i, m) in out.model.cmds.iter().enumerate() {
+        if !m.live {
+            break;
+        }
+        let Some(EndOfConn::Token(_)) = &m.ends else {
+            if m.ends.is_some() {
+                break;
+            }
+            continue;
+        };
+        let Act::Program(p) = &plan.cmds[i].act else { break };
+        let Some((at, _)) = p.ret_err else { break };
+        if p.probe_cells || crate::model::program_has_contra(p) || crate::model::program_has_retry(p) {
+            break;
+        }
+        // the callback must have been reached and every earlier reply decoded
+        let u = i + 1;
+        if w.answered != u || w.decode_stopped_on_error() {
+            break;
+        }
+        let n = p.units.len();
+        if at == 0 {
+            // nothing was reported before the callback bailed out: nothing is owed
+            break;
+        }
+        let exp = if at as usize > n {
+            crate::model::program_units(p)
+        } else {
+            let mut p2 = p.clone();
+            p2.units.truncate(at as usize);
+            p2.end = End::DropWriter;
+            p2.ret_err = None;
+            if let Some(Unit::Rows(ru)) = p2.units.last_mut() {
+                // the shim got past this unit, so it closed it with finish_one
+                if ru.close != Close::FinishOne {
+                    break;
+                }
+            }
+            crate::model::program_units(&p2)
+        };
+        let gr = match m.grammar {
+            Grammar::Text => dec::Gr::Text,
+            Grammar::Binary => dec::Gr::Binary,
+            _ => break,
+        };
+        let rest = &w.sbytes[w.dec_pos.min(w.sbytes.len())..];
+        match dec::decode_reply(rest, gr) {
+            Ok((d, used)) => {
+                if let DecResp::Units(got) = &d.resp {
+                    let before = vs.len();
+                    units_eq(&exp, got, u, vs);
+                    for v in vs[before..].iter_mut() {
+                        v.rule = "early-exit-reply";
+                    }
+                    if vs.len() == before && used != rest.len() {
+                        vs.push(v(
+                            "early-exit-reply",
+                            "extra bytes",
+                            format!("unit {}: {} byte(s) written behind the reply of a callback that bailed out", u, rest.len() - used),
+                        ));
+                    }
+                } else {
+                    vs.push(v("early-exit-reply", "kind", format!("unit {}: unexpected reply kind", u)));
+                }
+            }
+            Err(e) => vs.push(v(
+                "early-exit-reply",
+                "incomplete or malformed",
+                format!(
+                    "unit {} ({}): the callback bailed out after reporting {} result(s); what was written for them does not decode: {:?} ({} bytes written)",
+                    u,
+                    unit_name(plan, u),
+                    exp.len(),
+                    e,
+                    rest.len()
+                ),
+            )),
+        }
+        break;
+    }
+}
+
 pub fn all(plan: &Plan, out: &Outcome) -> Vec<Violation> {
     let mut vs = Vec::new();
     o_end(plan, out, &mut vs);
+    o_early_exit(plan, out, &mut vs);
     o_callbacks(plan, out, &mut vs);
     o_stall(plan, out, &mut vs);
     o_replies(plan, out, &mut vs);
